@@ -279,3 +279,43 @@ def twin_nop(which):
 
 
 KERNELS += [NopReshape(), NopBroadcast(), NopTranspose()]
+
+
+class Unsqueeze(Kernel):
+    id = "C01.P.axis_unsqueeze"
+    prop = "C01"
+    file, module, qual = "einx/_src/adapter/_util.py", "einx._src.adapter._util", "_unsqueeze"
+    allowed_raises = ("ValueError",)
+    describe = "_unsqueeze(t, axis): reshape to t.shape with a 1 inserted at the normalised position (axis in [-ndim-1, ndim]); ValueError exactly when out of range"
+
+    def setup(self, eng, bound=None):
+        self.n = z3.Int("n")
+        self.sh = z3.Array("shape", I, I)
+        self.ax = z3.Int("axis")
+        t = SRec("tensor", ndim=SInt(self.n), shape=SSeq(self.sh, self.n, "int", "tuple"))
+
+        def c_reshape(e, p, av, kw):
+            p.ghost["reshape"] = av
+            return SObj(fresh("reshaped", Obj))
+
+        eng.contracts["classical.reshape"] = SContract(c_reshape)
+        return {"classical": SObj(z3.Const("classical", Obj)), "tensor": t, "axis": SInt(self.ax)}, [self.n >= 0], {}
+
+    def post(self, eng, out, p):
+        a = z3.If(self.ax < 0, self.ax + self.n + 1, self.ax)
+        ok = z3.And(0 <= a, a <= self.n)
+        if isinstance(out, Raise):
+            eng.oblige("post:ValueError only when the axis is out of range", p, z3.Not(ok), "post")
+            return
+        av = p.ghost.get("reshape")
+        if not av:
+            eng.oblige("post:reshape is called", p, z3.BoolVal(False), "post")
+            return
+        s = eng.as_seq(av[1], p)
+        k = fresh("k")
+        eng.oblige("post:normal exit only for an axis in range", p, ok, "post")
+        eng.oblige("post:new shape = old shape with a 1 inserted at the normalised axis", p,
+                   z3.And(s.n == self.n + 1, z3.ForAll([k], z3.Implies(z3.And(0 <= k, k <= self.n), z3.Select(s.arr, k) == z3.If(k < a, z3.Select(self.sh, k), z3.If(k == a, 1, z3.Select(self.sh, k - 1)))))), "post")
+
+
+KERNELS.append(Unsqueeze())
